@@ -101,6 +101,9 @@ func (vc *VC) callValue(act *Act, st *State, common *ssa.CallCommon, fnVal Val, 
 					}
 					res = vc.applyContract(act, st, fc, names, args, paramTypes(callee), resT, sig, site, "call "+key)
 				}
+			} else if ec := vc.eng.externFor(callee); ec != nil && ec.CallbackLoop {
+				res = vc.callbackLoop(act, st, callee, ec, args, argTypes, resT, site)
+				vc.used["extern:"+callee.String()] = true
 			} else if ec := vc.eng.externFor(callee); ec != nil {
 				names := ec.ParamNames
 				if len(names) == 0 {
@@ -178,16 +181,23 @@ func paramTypes(fn *ssa.Function) []types.Type {
 
 // defaultCall: the callee may modify everything except non-escaping locals; result unconstrained.
 func (vc *VC) defaultCall(act *Act, st *State, resT types.Type, why string, keepGhost bool) Val {
-	if vc.frameOn {
-		f := vc.inFrame("0", "", "")
+	if vc.frameActive() {
 		// a callee without a frame is acceptable only when the caller's frame is 'everything'
-		ok := false
+		ok := !vc.frameOn
 		for _, it := range vc.frame {
 			if it.kind == "everything" {
 				ok = true
 			}
 		}
-		_ = f
+		for _, lf := range vc.loopFrames {
+			lok := false
+			for _, it := range lf.items {
+				if it.kind == "everything" {
+					lok = true
+				}
+			}
+			ok = ok && lok
+		}
 		if !ok {
 			n := vc.counts["frame#call-noframe"]
 			vc.counts["frame#call-noframe"]++
@@ -359,7 +369,7 @@ func (vc *VC) builtin(act *Act, st *State, bi *ssa.Builtin, common *ssa.CallComm
 		}
 		w := width(common.Args[0].Type().Underlying().(*types.Slice).Elem())
 		n := vc.def("ncopy", "Int", ite(fmt.Sprintf("(< %s %s)", dst.ln, src.ln), dst.ln, src.ln))
-		if vc.frameOn && !st.kept[dst.ref] {
+		if vc.frameActive() && !st.kept[dst.ref] {
 			f := or(eq(n, "0"), vc.inFrame(dst.ref, "", ""))
 			k := vc.counts["frame#copy"]
 			vc.counts["frame#copy"]++
@@ -383,7 +393,7 @@ func (vc *VC) builtin(act *Act, st *State, bi *ssa.Builtin, common *ssa.CallComm
 		// in place
 		sa := st.clone()
 		sa.guard = vc.def("g", "Bool", and(st.guard, fits))
-		if vc.frameOn && !st.kept[base.ref] {
+		if vc.frameActive() && !st.kept[base.ref] {
 			f := or(eq(more.ln, "0"), vc.inFrame(base.ref, "", ""))
 			k := vc.counts["frame#append"]
 			vc.counts["frame#append"]++
@@ -534,21 +544,31 @@ func bindResults(env *SpecEnv, res Val, resT types.Type, sig *types.Signature) {
 
 // callFrameCheck: the callee's frame must lie inside the caller's frame (or be fresh).
 func (vc *VC) callFrameCheck(act *Act, st *State, items []frameItem, what string, site ssa.Instruction) {
-	if !vc.frameOn {
+	if !vc.frameActive() {
 		return
 	}
 	for _, it := range items {
 		var f string
 		switch it.kind {
 		case "everything", "region":
-			f = "false"
-			for _, c := range vc.frame {
-				if c.kind == "everything" {
-					f = "true"
+			cover := func(cs []frameItem) string {
+				f := "false"
+				for _, c := range cs {
+					if c.kind == "everything" {
+						f = "true"
+					}
+					if it.kind == "region" && c.kind == "region" {
+						f = or(f, eq(it.ref, c.ref))
+					}
 				}
-				if it.kind == "region" && c.kind == "region" {
-					f = or(f, eq(it.ref, c.ref))
-				}
+				return f
+			}
+			f = "true"
+			if vc.frameOn {
+				f = and(f, cover(vc.frame))
+			}
+			for _, lf := range vc.loopFrames {
+				f = and(f, cover(lf.items))
 			}
 		case "obj":
 			if st.kept[it.ref] {
@@ -591,7 +611,11 @@ func (vc *VC) resolveModifies(env *SpecEnv, clauses []*Clause) (items []frameIte
 				if !ok {
 					specErr("modifies *%s: not a pointer", it.Text)
 				}
-				items = append(items, frameItem{kind: "obj", ref: p.ref, text: it.Text})
+				if pt, isPtr := tv.t.Underlying().(*types.Pointer); isPtr && !vc.eng.wholeObjectType(pt.Elem()) {
+					items = append(items, frameItem{kind: "range", ref: p.ref, lo: p.idx, hi: add(p.idx, width(pt.Elem())), text: it.Text})
+				} else {
+					items = append(items, frameItem{kind: "obj", ref: p.ref, text: it.Text})
+				}
 			case "all":
 				tv := env.evalTV(it.Expr)
 				items = append(items, frameItem{kind: "obj", ref: refOf(tv.v), text: it.Text})
@@ -729,11 +753,20 @@ func (vc *VC) intrinsic(act *Act, st *State, callee *ssa.Function, args []Val, a
 	case "fmt.Sprintf", "fmt.Sprint":
 		// congruence: equal format and equal (boxed) arguments give equal strings
 		var leaves []string
-		for _, a := range args {
+		for ai, a := range args {
 			switch x := a.(type) {
 			case IntV:
 				leaves = append(leaves, x.t)
 			case SliceV:
+				// variadic arguments built at the call site: read the elements off the SSA
+				if ci, ok := site.(ssa.CallInstruction); ok && ai < len(ci.Common().Args) {
+					if els, ok := vc.varargElems(act, ci.Common().Args[ai]); ok {
+						for _, el := range els {
+							leaves = append(leaves, flatten(el)...)
+						}
+						continue
+					}
+				}
 				n, err := parseInt(x.ln)
 				if err != nil || n > 4 {
 					return IntV{vc.fresh("str", "Int")}, true
@@ -748,4 +781,100 @@ func (vc *VC) intrinsic(act *Act, st *State, callee *ssa.Function, args []Val, a
 	}
 	_ = token.NoPos
 	return nil, false
+}
+
+// callbackLoop: an external higher-order function that calls its closure argument any number of
+// times (sync.Map.Range, ...). It is treated as a loop whose body is the closure: the caller's
+// contract names what the loop may modify (`loop "callback <callee>" modifies ...`); that frame is
+// havocked, and the closure body is verified once against it from the havocked state.
+func (vc *VC) callbackLoop(act *Act, st *State, callee *ssa.Function, ec *FuncContract, args []Val, argTypes []types.Type, resT types.Type, site ssa.Instruction) Val {
+	ec.Used = true
+	var cv *ClosureV
+	for _, a := range args {
+		if c, ok := a.(ClosureV); ok {
+			cc := c
+			cv = &cc
+		}
+	}
+	var lc *LoopContract
+	if act.fc != nil {
+		for _, l := range act.fc.Loops {
+			if l.Key == "callback "+vc.eng.keyOf(callee) || l.Key == "callback "+callee.String() {
+				lc = l
+				l.Used = true
+			}
+		}
+	}
+	if cv == nil || lc == nil || len(lc.Modifies) == 0 || len(cv.fn.Blocks) == 0 {
+		return vc.defaultCall(act, st, resT, "callback-loop "+callee.String(), true)
+	}
+	items, ghosts, everything := vc.resolveModifies(vc.specEnv(act, st, act.entry, "invariant", nil), lc.Modifies)
+	if everything {
+		return vc.defaultCall(act, st, resT, "callback-loop "+callee.String(), true)
+	}
+	vc.callFrameCheck(act, st, items, "callback-loop "+callee.String(), site)
+	entryTop := st.top
+	vc.havocItems(st, items, ghosts)
+	for _, inv := range lc.Invariants {
+		vc.assume(st, vc.evalBool(vc.specEnv(act, st, act.entry, "invariant", nil), inv))
+	}
+	// verify the body once from the havocked state against the loop frame
+	body := st.clone()
+	var cargs []Val
+	for _, p := range cv.fn.Params {
+		cargs = append(cargs, vc.freshVal(body, "cb_"+sanitize(p.Name()), p.Type()))
+	}
+	saved := vc.loopFrames
+	vc.loopFrames = append(append([]loopFrame{}, saved...), loopFrame{items: items, top: entryTop, name: lc.Key})
+	var cresT types.Type
+	if r := cv.fn.Signature.Results(); r.Len() == 1 {
+		cresT = r.At(0).Type()
+	} else if r.Len() > 1 {
+		cresT = r
+	}
+	vc.inline(act, body, cv.fn, cargs, cv.bind, cresT)
+	vc.loopFrames = saved
+	if resT == nil {
+		return nil
+	}
+	return vc.freshVal(st, "ret", resT)
+}
+
+// varargElems returns the values stored into a variadic argument array built at the call site.
+func (vc *VC) varargElems(act *Act, arg ssa.Value) ([]Val, bool) {
+	sl, ok := arg.(*ssa.Slice)
+	if !ok || sl.Low != nil || sl.High != nil {
+		return nil, false
+	}
+	al, ok := sl.X.(*ssa.Alloc)
+	if !ok || al.Comment != "varargs" || al.Referrers() == nil {
+		return nil, false
+	}
+	arr, ok := al.Type().(*types.Pointer).Elem().Underlying().(*types.Array)
+	if !ok || arr.Len() > 8 {
+		return nil, false
+	}
+	out := make([]Val, arr.Len())
+	for _, r := range *al.Referrers() {
+		ia, ok := r.(*ssa.IndexAddr)
+		if !ok {
+			continue
+		}
+		c, ok := ia.Index.(*ssa.Const)
+		if !ok || ia.Referrers() == nil {
+			return nil, false
+		}
+		k := c.Int64()
+		for _, u := range *ia.Referrers() {
+			if stv, ok := u.(*ssa.Store); ok && stv.Addr == ia {
+				out[k] = vc.val(act, stv.Val)
+			}
+		}
+	}
+	for _, v := range out {
+		if v == nil {
+			return nil, false
+		}
+	}
+	return out, true
 }
